@@ -21,6 +21,7 @@ import (
 	stdcontext "context"
 	"fmt"
 	"io"
+	"math"
 	"net/http"
 	"net/textproto"
 	"strings"
@@ -575,14 +576,54 @@ func (sp *ServerPool) doHandle(stdctx stdcontext.Context, spCtx *serverPoolConte
 	return nil
 }
 
+// limitedBody fails with ErrResponseEntityTooLarge once more than 'left'
+// bytes have been read from the wrapped body.
+type limitedBody struct {
+	io.ReadCloser
+	left int64
+}
+
+func (b *limitedBody) Read(p []byte) (int, error) {
+	n, err := b.ReadCloser.Read(p)
+	b.left -= int64(n)
+	if b.left < 0 {
+		return n, httpprot.ErrResponseEntityTooLarge
+	}
+	return n, err
+}
+
 func (sp *ServerPool) buildResponse(spCtx *serverPoolContext) (err error) {
 	body := readers.NewCallbackReader(spCtx.stdResp.Body)
 	spCtx.stdResp.Body = body
 	spCtx.respBody = body
 
+	maxBodySize := sp.spec.ServerMaxBodySize
+	if maxBodySize == 0 {
+		maxBodySize = sp.proxy.spec.ServerMaxBodySize
+	}
+
 	if sp.proxy.compression != nil {
+		// ServerMaxBodySize limits the body sent by the server, not its
+		// compressed form, so the limit must be applied before compression.
+		limit := maxBodySize
+		if limit == 0 {
+			limit = httpprot.DefaultMaxPayloadSize
+		}
+		if limit > 0 {
+			if spCtx.stdResp.ContentLength > limit {
+				body.Close()
+				return httpprot.ErrResponseEntityTooLarge
+			}
+			spCtx.stdResp.Body = &limitedBody{ReadCloser: body, left: limit}
+		}
+
 		if sp.proxy.compression.compress(spCtx.stdReq, spCtx.stdResp) {
 			spCtx.AddTag("gzip")
+			if limit > 0 {
+				maxBodySize = math.MaxInt64
+			}
+		} else {
+			spCtx.stdResp.Body = body
 		}
 	}
 
@@ -593,10 +634,6 @@ func (sp *ServerPool) buildResponse(spCtx *serverPoolContext) (err error) {
 		return err
 	}
 
-	maxBodySize := sp.spec.ServerMaxBodySize
-	if maxBodySize == 0 {
-		maxBodySize = sp.proxy.spec.ServerMaxBodySize
-	}
 	if err = resp.FetchPayload(maxBodySize); err != nil {
 		logger.Debugf("%s: failed to fetch response payload: %v", sp.name, err)
 		body.Close()
